@@ -63,10 +63,10 @@ def check(ctx, rep):
         if slot_field is None and q.self_field(src):
             slot_field = src[2]
         rep.ob("R-INDEX", "Zipper.__init__: indices come from the slot list", slot_field is not None, "enumerate() walks %s, which is not the list the results are stored in" % fmt(src), where_of(init, r.node))
-        slot_val = p.heap.get(("attr", SELF, slot_field)) if slot_field else None
+        slot_val = q.deref(p, p.heap.get(("attr", SELF, slot_field))) if slot_field else None
         rep.ob("R-INDEX", "Zipper.__init__: the slot list is a list copy of the inputs in order", slot_val == ("listof", ("param", init.params[1]), ()), "slot list initialised as %s" % (fmt(slot_val) if slot_val else None), where_of(init))
         cnt = [(k, v) for k, v in p.heap.items() if k[0] == "attr" and k[1] == SELF and isinstance(v, tuple) and v[0] == "call" and v[1] == ("name", "len")]
-        ok = len(cnt) == 1 and cnt[0][1][2] in (((slot_val,) if slot_val else ()), (("attr", SELF, slot_field),), (("param", init.params[1]),))
+        ok = len(cnt) == 1 and q.deref(p, cnt[0][1][2]) in (((slot_val,) if slot_val else ()), (("attr", SELF, slot_field),), (("param", init.params[1]),))
         if cnt:
             count_field = cnt[0][0][2]
         rep.ob("R-TABLE", "Zipper.__init__: remaining counter starts at the number of inputs", ok, "counter initialised as %s" % ([fmt(v) for k, v in cnt]), where_of(init))
@@ -175,11 +175,14 @@ def check(ctx, rep):
         if mk:
             kinds.add("some")
             a = mk[0].d["args"]
-            ok = a == (("seq", (), ("param", fz.vararg), 0),) and isinstance(p.value, tuple) and (p.value[:2] == ("call", ("func", prog.fn("metrics:track_future").key)) and p.value[2][0][0] == "attr" and p.value[2][0][2] == "out")
+            v = p.value
+            if isinstance(v, tuple) and v[0] == "call" and v[2]:
+                v = v[2][0]  # track_future(x) when it is not summarised
+            ok = a == (("seq", (), ("param", fz.vararg), 0),) and isinstance(v, tuple) and v[0] == "attr" and v[2] == "out" and isinstance(v[1], tuple) and v[1][0] == "new" and v[1][1] == Z.key
             rep.ob("R-COMPOSE", "f_zip builds a Zipper over all inputs and returns its output", ok, "Zipper(%s), returns %s" % ([fmt(x) for x in a], fmt(p.value)), where_of(fz))
         else:
             kinds.add("none")
-            v = p.value
+            v = q.deref(p, p.value)
             ok = isinstance(v, tuple) and v[0] == "call" and q.term_name(v[1]) == "f_return" and len(v[2]) == 1 and v[2][0][0] == "call" and q.term_name(v[2][0][1]) == "maketuple" and v[2][0][2] == (("list", ()),)
             rep.ob("R-COMPOSE", "f_zip() without inputs is a resolved empty tuple", ok, "returns %s" % fmt(v), where_of(fz))
     rep.require(kinds == {"some", "none"}, "f_zip: expected the empty and the non-empty path")
